@@ -562,8 +562,15 @@ func (m *Map) MarshalJSON() ([]byte, error) {
 	}
 	m.convert()
 	tmp := make(map[string]interface{}, len(m.items))
-	for k, v := range m.items {
-		tmp[lowerFirst(k)] = v
+	keys := make([]string, 0, len(m.items))
+	for k := range m.items {
+		keys = append(keys, k)
+	}
+	// sorted, so that of two keys which differ only in the case of the first letter
+	// (`Foo`, `foo`) always the same one is encoded
+	sort.Strings(keys)
+	for _, k := range keys {
+		tmp[lowerFirst(k)] = m.items[k]
 	}
 	return json.Marshal(tmp)
 }
